@@ -146,13 +146,12 @@ theorem C03_Cd_index_rat : ratArith.trunc (ratArith.mul (ratArith.div 4 49) (rat
     element and cell `i` holds a CostTuple `val` that is not more than 1 away, the element is merged into
     `val` (it will be popped with `val`, at `val`'s cost) — whatever the true bucket of the element is -/
 theorem C03_Cd_misplaced_merge (A : Arith α) (k f : Nat) (e val : CT α) (cost maxi : α) (cells : List (Cell α)) (tr i : Nat)
-    (hz : A.isZero maxi = false)
+    (hz : A.isZero maxi = false) (hmf : A.mulFirst = false)
     (hi : ((A.trunc (A.mul (A.div cost maxi) (A.ofNat k)) + (tr : Int)) % (k : Int)).toNat = i)
     (hc : cells[i]? = some (.leaf val))
     (hclose : A.lt (A.ofInt 1) (A.abs (A.sub val.cost e.cost)) = false) :
     pushCells A k (f + 1) e cost maxi cells tr =
       some (cells.set i (.leaf { val with combs := val.combs ++ e.combs }), false) := by
-  simp only [pushCells, hz, hi, hc, hclose]
-  simp
+  simp only [pushCells, hz, hmf, Bool.false_eq_true, if_false, hi, hc, hclose]
 
 end PS.C03Cd
